@@ -217,9 +217,10 @@ def sizes_escape(ctx, _fail):
             ecases.append("writer.escape_reuse\t%s\t%s" % (hexs(pv), hexs(nx)))
     for nx in prevs[-6:]:
         ecases.append("writer.escape_reuse\t%s\t%s" % (hexs(b'"' * 5), hexs(nx)))
-    impl, _ = ctx.correspond("sizes_escape", ecases, nontrivial=lambda c, i: "5c" in i)
-    b0 = len(impl) - len(ecases)
-    for k, c in enumerate(ecases):
+    for stream, prof in (("sizes_escape", "release"), ("sizes_escape_debug", "debug")):
+      impl, _ = ctx.correspond(stream, ecases, nontrivial=lambda c, i: "5c" in i, profile=prof)
+      b0 = len(impl) - len(ecases)
+      for k, c in enumerate(ecases):
         p = unhex(c.split("\t")[-1])
         o = impl[b0 + k]
         if o in CRASH or unhex(o) != D.escape(p):
@@ -520,7 +521,8 @@ def sizes_illformed(ctx, _fail):
 
 def run(ctx, _fail):
     D.deep_recursion()
-    sizes_calls(ctx, _fail)
+    for _ in range(1 if ctx.tier == "quick" else 3):       # thorough: three draws of kinds / flavours / factors per ladder value
+        sizes_calls(ctx, _fail)
     sizes_cheap(ctx, _fail)
     sizes_escape(ctx, _fail)
     sizes_payload(ctx, _fail)
